@@ -176,6 +176,10 @@ pub(crate) fn decompress(x: &[u8], n: usize) -> Option<Vec<i16>> {
         let mut low_bits = 0i16;
         let (index_div_8, index_mod_8) = index.div_mod_floor(&8);
         low_bits |= (x[index_div_8] as i16) << index_mod_8;
+        if index_div_8 + 1 >= x.len() {
+            // a coefficient that is not the last one cannot end in the last byte
+            return None;
+        }
         low_bits |= (x[index_div_8 + 1] as i16) >> (8 - index_mod_8);
         low_bits = (low_bits & 255) >> 1;
         index += 7;
